@@ -15,11 +15,13 @@
     print                → ok <hex of the text EntryStored.save writes for the current entry> | <error>
     printv <pyval>       → ok <hex of json.dumps(value, separators=(',', ':'))>
     parse <texthex>      → ok <json value of json.loads(text)> | none
+    ident <valhex,valhex> → ok <hex of str(identity)> for the tree cache identity filled with these values
     rttext               → ok <view of loads(json.loads(json.dumps(dumps)))> | <error>
 -/
 import Tranp.Driver.Common
 import Tranp.Model.LarkEntry
 import Tranp.Model.JsonCodec
+import Tranp.Model.CacheShape
 
 namespace Tranp.Driver.Entry
 open Tranp Tranp.Lark Tranp.Driver
@@ -163,6 +165,10 @@ def step (st : St) : List String → St × String
     | some txt => (st, match parseJson txt with
       | some j => "ok " ++ showJson j
       | none => "none")
+    | none => (st, "bad-op")
+  | ["ident", vs] =>
+    match (vs.splitOn ",").mapM Str.unhex with
+    | some vals => (st, "ok " ++ Str.hex (Shape.pyStrDict (Shape.treeIdentityOf vals)))
     | none => (st, "bad-op")
   | ["rttext"] =>
     match storeLoadText st.t with
